@@ -34,44 +34,49 @@ def c2fRaw (xr xc : List α) : List (List α) :=
 
 def addRows (a b : List α) : List α := List.zipWith (· + ·) a b
 
+/-- fold the first entry of a row onto the last one: `c0 :: (cm ++ [cl])  ↦  cm ++ [cl + c0]` -/
+def foldRow : List α → List α
+  | [] => []
+  | c0 :: cs =>
+    match cs.getLast? with
+    | none => []
+    | some cl => cs.dropLast ++ [cl + c0]
+
 /-- merge the two halves of the split top corner of a raw overlap matrix, as the code does:
 `m[-1,:] += m[0,:]; m[:,-1] += m[:,0]; m = m[1:,1:]` (lengths are merged, not averaged) -/
 def foldCorner (m : List (List α)) : List (List α) :=
   match m with
   | [] => []
   | first :: rest =>
-    match rest.reverse with
-    | [] => []
-    | last :: midRev =>
-      let last' := addRows last first
-      let rows := (first :: midRev.reverse) ++ [last']
-      let rows := rows.map fun row =>
-        match row with
-        | [] => []
-        | c0 :: cs =>
-          match cs.reverse with
-          | [] => []
-          | cl :: cmRev => (c0 :: cmRev.reverse) ++ [cl + c0]
-      (rows.drop 1).map fun row => row.drop 1
+    match rest.getLast? with
+    | none => []
+    | some last => (rest.dropLast ++ [addRows last first]).map foldRow
 
-/-- cell lengths with the two halves of the top corner merged into the last cell -/
-def mergedLengths (xb : List α) : List α :=
-  let d := (intervals xb).map fun r => r.2 - r.1
-  match d with
+/-- lengths of cells given as intervals, with the two halves of the top corner merged into the last cell -/
+def mergedLengthsI (iv : List (α × α)) : List α :=
+  match iv with
   | [] => []
-  | d0 :: rest =>
-    match rest.reverse with
-    | [] => []
-    | dl :: midRev => midRev.reverse ++ [dl + d0]
+  | f :: rest =>
+    match rest.getLast? with
+    | none => []
+    | some l => (rest.dropLast.map fun r => r.2 - r.1) ++ [(l.2 - l.1) + (f.2 - f.1)]
+
+def mergedLengths (xb : List α) : List α := mergedLengthsI (intervals xb)
+
+/-- raw overlaps of interval lists: one row per `R` interval, one column per `C` interval -/
+def rawI (R C : List (α × α)) : List (List α) := R.map fun r => C.map fun c => ovl r.1 r.2 c.1 c.2
+
+/-- merged, row-normalised map from the cells `C` to the cells `R` (both with split top corner) -/
+def mapI (R C : List (α × α)) : List (List α) :=
+  List.zipWith (fun row d => row.map (fun v => v / d)) (foldCorner (rawI R C)) (mergedLengthsI R)
 
 /-- gap (fine) -> region (coarse): merged overlap rows divided by the merged region cell length -/
-def f2c (xr xc : List α) : List (List α) :=
-  List.zipWith (fun row d => row.map (fun v => v / d)) (foldCorner (rawOverlap xr xc)) (mergedLengths xr)
+def f2c (xr xc : List α) : List (List α) := mapI (intervals xr) (intervals xc)
 
-/-- region (coarse) -> gap (fine): transposed merged overlap divided by the merged gap cell length -/
+/-- region (coarse) -> gap (fine): the same construction with the roles of the meshes exchanged -/
 def c2f (xr xc : List α) : List (List α) :=
-  let ovT := (intervals xc).map fun c => (intervals xr).map fun r => ovl r.1 r.2 c.1 c.2
-  List.zipWith (fun row d => row.map (fun v => v / d)) (foldCorner ovT) (mergedLengths xc)
+  List.zipWith (fun row d => row.map (fun v => v / d))
+    (foldCorner ((intervals xc).map fun c => (intervals xr).map fun r => ovl r.1 r.2 c.1 c.2)) (mergedLengthsI (intervals xc))
 
 /-- matrix–vector product -/
 def apply (m : List (List α)) (x : List α) : List α :=
